@@ -364,6 +364,7 @@ func API(c Case) (out Case) {
 		defer close(sink.ch)
 	}
 	capacity := num(cfg, "cap")
+	var lastModel []bool // the model of the latest Sat answer of Solve (for "blocklast")
 	for _, e := range objs(c, "ev") {
 		r := copyCase(e)
 		switch str(e, "op") {
@@ -371,8 +372,10 @@ func API(c Case) (out Case) {
 			st := s.Solve()
 			r["status"] = statusOf(st)
 			r["model"] = []bool{}
+			lastModel = nil
 			if st == solver.Sat {
 				r["model"] = nnBools(s.Model())
+				lastModel = nnBools(s.Model())
 			}
 			r["cert"] = [][]int{}
 			r["certOn"] = sink != nil
@@ -382,6 +385,27 @@ func API(c Case) (out Case) {
 			r["wb"] = takeEvents()
 		case "append":
 			s.AppendClause(buildClause(obj(e, "c")))
+		case "blocklast":
+			// an adaptive history inside (Solve | AppendClause)*: the clause that excludes the model just
+			// returned is appended; recorded as an ordinary "append" event with the clause that was given
+			if lastModel == nil {
+				evs = append(evs, M{"op": "skip", "why": "no model to block"})
+				continue
+			}
+			lits := make([]any, len(lastModel)) // the accessors read JSON-shaped values
+			w := make([]any, len(lastModel))
+			for v, val := range lastModel {
+				lits[v], w[v] = float64(v+1), float64(1)
+				if val {
+					lits[v] = float64(-(v + 1))
+				}
+			}
+			k := M{"k": "clause", "lits": lits, "w": w, "rhs": float64(1)}
+			if len(clauseLits(k)) != len(lastModel) {
+				panic("harness: blocking clause not built")
+			}
+			r["op"], r["c"] = "append", k
+			s.AppendClause(buildClause(k))
 		case "assume":
 			st := s.Assume(toLits(ints(e, "ls")))
 			r["status"] = statusOf(st)
